@@ -68,7 +68,7 @@ Theorem C14_emit_unfold : forall rt sty cfg seg sections f n stack section base 
     (fun k ws =>
        do o1 <- emit_file_of rt sty cfg seg sections f base k ws;
        do o2 <- (if reference_partial cfg then Ok ([], snd o1) else
-                 match lookup k (sections_subgroups seg) with
+                 match lookup k (subgroups_for seg f) with
                  | Some others =>
                      fold_out (fun other ws =>
                                  emit_sff rt sty cfg seg sections f n (section :: stack) other base ws)
